@@ -505,12 +505,12 @@ pub fn build(quick: bool) -> Check {
     Check {
         id: "C15",
         level: "model_checking",
-        rule: "all pairs (Rust type in {u8,i8,u16,i16,u32,i32,u64,i64,usize,isize, Value::Int, Value::UInt}) x (column in {TINY,SHORT,YEAR,INT24,LONG,LONGLONG} x {signed,unsigned} x 5 sets of other flags (none, ZEROFILL, NOT NULL|PRI KEY|AUTO_INCREMENT, BINARY|NUM|PART KEY, every flag but UNSIGNED)); values exhaustive for 8- and 16-bit types, otherwise every +-2^k, +-2^k+-1, type bounds and every column bound +-1; driven at the public to_mysql_bin seam, and through write_col/run_on with neighbouring cells. Oracle: bytes decoded by the column's width and signedness; accepted => decoded == written and width == column width; fixed-width type contained in the column => accepted; pointer-sized => accepted iff the value fits; a panic counts as a refusal and is tallied. Encoding histories at the seam: every ordered pair over 25 (value, column) pairs (bit twins of different Rust types and signedness, values that must be refused, floats, strings), the first encoded into a good or a failing writer; the second's bytes or refusal must be what a thread that never encoded anything else produces. Values in context: every sequence of <= 3 (thorough: 4) events on one connection (rows of other shapes incl. all-NULL / alternating NULLs / 300- and 70000-byte cells, a refused cell, a new resultset behind finish_one with the same or other columns, behind a completion, behind a zero-column set, a new command in the same or the other protocol, finish_error) followed by a probe row of characteristic values for nine column types; every row of the conversation must decode cell for cell to what was written. Non-trivial = a value the column cannot represent.".into(),
+        rule: "nine typed cells (integers of every width among them) behind a filler sized so that the 2^24-1 byte packet limit falls on every byte of them, binary and text protocol; all pairs (Rust type in {u8,i8,u16,i16,u32,i32,u64,i64,usize,isize, Value::Int, Value::UInt}) x (column in {TINY,SHORT,YEAR,INT24,LONG,LONGLONG} x {signed,unsigned} x 5 sets of other flags (none, ZEROFILL, NOT NULL|PRI KEY|AUTO_INCREMENT, BINARY|NUM|PART KEY, every flag but UNSIGNED)); values exhaustive for 8- and 16-bit types, otherwise every +-2^k, +-2^k+-1, type bounds and every column bound +-1; driven at the public to_mysql_bin seam, and through write_col/run_on with neighbouring cells. Oracle: bytes decoded by the column's width and signedness; accepted => decoded == written and width == column width; fixed-width type contained in the column => accepted; pointer-sized => accepted iff the value fits; a panic counts as a refusal and is tallied. Encoding histories at the seam: every ordered pair over 25 (value, column) pairs (bit twins of different Rust types and signedness, values that must be refused, floats, strings), the first encoded into a good or a failing writer; the second's bytes or refusal must be what a thread that never encoded anything else produces. Values in context: every sequence of <= 3 (thorough: 4) events on one connection (rows of other shapes incl. all-NULL / alternating NULLs / 300- and 70000-byte cells, a refused cell, a new resultset behind finish_one with the same or other columns, behind a completion, behind a zero-column set, a new command in the same or the other protocol, finish_error) followed by a probe row of characteristic values for nine column types; every row of the conversation must decode cell for cell to what was written. Non-trivial = a value the column cannot represent.".into(),
         assumptions: vec!["32/64-bit value domains are covered at boundary lattices".into()],
         bounds: json!({"types": 12, "columns": 12}),
         exhaustive: true,
         caps_hit: vec![],
-        families: if quick { vec![Box::new(Matrix { tys: types() }), Box::new(ThroughRows), Box::new(super::c07::MixedRows), Box::new(super::aftermath::Aftermath { prop: "C15" }), Box::new(BinSeamHistories::new()), Box::new(super::context::BoundaryCells { prop: "C15", bin: true }), Box::new(super::context::ContextWalks { prop: "C15", depth: 2, start_bin: true }), Box::new(super::context::ContextWalks { prop: "C15", depth: 3, start_bin: true })] } else { vec![Box::new(Matrix { tys: types() }), Box::new(ThroughRows), Box::new(Exhaustive32), Box::new(super::c07::MixedRows), Box::new(super::aftermath::Aftermath { prop: "C15" }), Box::new(BinSeamHistories::new()), Box::new(super::context::BoundaryCells { prop: "C15", bin: true }), Box::new(super::context::ContextWalks { prop: "C15", depth: 2, start_bin: true }), Box::new(super::context::ContextWalks { prop: "C15", depth: 3, start_bin: true })] },
+        families: if quick { vec![Box::new(Matrix { tys: types() }), Box::new(ThroughRows), Box::new(super::c07::MixedRows), Box::new(super::aftermath::Aftermath { prop: "C15" }), Box::new(BinSeamHistories::new()), Box::new(super::context::BoundaryCells { prop: "C15", bin: true }), Box::new(super::context::BoundaryCells { prop: "C15", bin: false }), Box::new(super::context::ContextWalks { prop: "C15", depth: 2, start_bin: true }), Box::new(super::context::ContextWalks { prop: "C15", depth: 3, start_bin: true })] } else { vec![Box::new(Matrix { tys: types() }), Box::new(ThroughRows), Box::new(Exhaustive32), Box::new(super::c07::MixedRows), Box::new(super::aftermath::Aftermath { prop: "C15" }), Box::new(BinSeamHistories::new()), Box::new(super::context::BoundaryCells { prop: "C15", bin: true }), Box::new(super::context::BoundaryCells { prop: "C15", bin: false }), Box::new(super::context::ContextWalks { prop: "C15", depth: 2, start_bin: true }), Box::new(super::context::ContextWalks { prop: "C15", depth: 3, start_bin: true })] },
         required: vec!["seam_histories", "context_walks", "columns_with_other_flags", "mixed_rows", "aftermath_recovered", "accepted", "refused", "rows_accepted", "rows_refused"],
     }
 }
